@@ -1619,6 +1619,12 @@ class Interp:
         # ---- local callee: interpret with a summary frame
         if c.get('res_local') and self.inline(res) and self.facts.body(res) is not None:
             return self._inline_call(fr, t, res, pth)
+        if not c.get('res') and trait and c.get('def_local'):
+            # a method of a crate-private trait with a single (blanket) impl, called from generic code
+            import inline as INL
+            um = INL.unique_private_impl_method(self.facts, trait, name)
+            if um is not None and self.inline(um):
+                return self._inline_call(fr, t, um, pth)
         self._havoc(fr, t, 'callee %s not in the fragment' % res)
 
     def _closure_value(self, fr, op):
